@@ -92,8 +92,8 @@ func setup(env *runner.Env) error {
 func init() {
 	runner.Register(&runner.Prop{
 		ID: "C10",
-		Rule: "quick: 6 repo files + 400 generated movies (3 240 tool runs), thorough: + 20 000 generated movies (160 040 tool runs). One case = one input file x 8 runs of the built binary bin/tools/mp4ff-crop -d <ms> in out (files in the worker's scratch directory). Inputs: the repo's progressive test files, then generated movies (gen/prog.RandomMovie, own serializer, real avc1/hvc1/mp4a sample entries): 1..4 tracks (0..2 video with stss/GOPs, 0..3 audio), " +
-			"timescales that differ between tracks, with/without ctts (v0/v1), sdtp, edts/elst, stss; a fifth of the tracks with zero-size samples, a quarter of the video tracks starting inside a GOP (first sync sample is sample 2 or 3); stco or co64; chunking from one chunk per sample to one chunk per track with 1..3 sample-description ids and non-maximal runs; sequential, round-robin, by-time or shuffled interleaving; junk gaps; mdat before or after moov; compact or 64-bit mdat header; every 8th generated movie (co64 everywhere, 64-bit mdat header) is written as a sparse file of more than 4 GiB with a hole of about 2^32 bytes inside the mdat payload in front of a PRNG-chosen chunk, so that chunk offsets on both sides of 2^32 occur (the oracle keeps reading the compact twin: samples, times and bytes are the same); " +
+		Rule: "quick: 6 repo files + 400 generated movies (3 240 tool runs), thorough: + 20 000 generated movies (160 040 tool runs). One case = one input file x 8 runs of the built binary bin/tools/mp4ff-crop -d <ms> in out (files in the worker's scratch directory; the output path of a case is reused for its 8 runs and before each run it holds, PRNG-chosen, nothing (3/7), an empty file, random bytes longer than the input, the longest earlier successful output of the same input (a copy of the input while there is none) or whatever the previous run left; the file found at the path after a successful run is read back whole). Inputs: the repo's progressive test files, then generated movies (gen/prog.RandomMovie, own serializer, real avc1/hvc1/mp4a sample entries): 1..4 tracks (0..2 video with stss/GOPs, 0..3 audio), " +
+			"timescales that differ between tracks, with/without ctts (v0/v1), sdtp, edts/elst, stss; a fifth of the tracks with zero-size samples, a quarter of the video tracks starting inside a GOP (first sync sample is sample 2 or 3); stco or co64; chunking from one chunk per sample to one chunk per track with 1..3 sample-description ids and non-maximal runs; sequential, round-robin, by-time or shuffled interleaving; junk gaps; mdat before or after moov; compact or 64-bit mdat header; two of three generated movies with 1..4 non-trak children of moov (udta empty or with an unknown child, free, skip, iods, meta with hdlr+ilst, an unknown type) between mvhd and the first trak, between two traks (trak boxes not neighbours), behind the last trak or (rarely) in front of mvhd; a quarter of the tracks behind the first one end exactly where a later sync sample of the first track starts; every 8th generated movie (co64 everywhere, 64-bit mdat header) is written as a sparse file of more than 4 GiB with a hole of about 2^32 bytes inside the mdat payload in front of a PRNG-chosen chunk, so that chunk offsets on both sides of 2^32 occur (the oracle keeps reading the compact twin: samples, times and bytes are the same); " +
 			"35% adversarial movies (tiny timescales, random per-sample durations) where tick rounding matters; every 8th generated movie is a carry probe: a video reference track with time scale c in {4e9, 3e9, 2^32-1} and a sync sample at decode time T = ceil((k*2^64-(c-1))/t) for k in 1..3, audio tracks with time scale t in {3e9, 2^31, 4e9} < c-1, so that T*t lies in the last c-1 values below k*2^64 and the rounded-up conversion of the end time carries out of a 64-bit word. Durations per file: 1 ms, three sample boundaries of the reference track -1/0/+1 ms, one random inside, total-1 ms, total, total+1000 ms. " +
 			"Oracle only for exit status 0: the output tiles (reference walker), decodes (mp4.DecodeFile) and its tables are consistent (reference expansion); per track the output samples equal the first k input samples (payload bytes, duration, composition offset, sync, sdtp byte, sample-description id) " +
 			"with k = number of samples of that track whose decode time/timescale < endTime and endTime = start of the first sync sample of the reference track (first vide, else first soun track) at or after the requested duration, all in exact integer cross-multiplication; chunks lie inside the single new mdat, do not overlap and fill it exactly; mvhd/tkhd/mdhd/elst durations <= the input's. " +
@@ -101,6 +101,8 @@ func init() {
 		Assumptions: []string{
 			"reference track as in the statement and in findEndTime of cmd/mp4ff-crop/main.go: first trak with handler vide, else first with handler soun",
 			"a track without stss consists of sync samples only (ISO/IEC 14496-12 8.6.2)",
+			"the statement is about the tracks: whether the non-trak children of moov (udta, meta, free ...) reach the output is recorded as evidence (seen.non_trak_moov_children_in_output), not judged; a trak that appears twice or is missing is a track-count violation",
+			"the output is the file found at the output path after the run, whatever the path held before; a tail left over from an earlier file makes it not tile into boxes",
 			"decode times are used (edit lists do not shift the cut), as the statement says 'samples that start before the end time'",
 			"when no sync sample of the reference track starts at or after the requested duration the statement defines no k: such a successful run is counted inconclusive",
 			"finding keys name the clause, the track kind, the size of the discrepancy and the conditions under which it occurs (reference track with/without stss, track timescale equal to/different from the reference timescale, requested duration on/off the reference tick grid); the conditions only label the finding, the verdict always comes from the exact model",
@@ -149,6 +151,76 @@ func refTrackIndex(m *stbl.Movie) int {
 		}
 	}
 	return -1
+}
+
+// moovChildren lists the types of the children of moov in file order.
+func moovChildren(m *stbl.Movie) []string {
+	var out []string
+	for _, n := range m.Nodes {
+		if n.Type == "moov" {
+			for _, ch := range n.Children {
+				out = append(out, ch.Type)
+			}
+		}
+	}
+	return out
+}
+
+// nonTrakChildren: the sorted types of the children of moov that are no trak.
+func nonTrakChildren(m *stbl.Movie) string {
+	var out []string
+	for _, t := range moovChildren(m) {
+		if t != "trak" {
+			out = append(out, t)
+		}
+	}
+	sort.Strings(out)
+	return strings.Join(out, ",")
+}
+
+// moovShape classifies where the non-trak children of moov sit relative to the trak boxes.
+func moovShape(m *stbl.Movie) string {
+	ch := moovChildren(m)
+	first, last := -1, -1
+	for i, t := range ch {
+		if t == "trak" {
+			if first < 0 {
+				first = i
+			}
+			last = i
+		}
+	}
+	var parts []string
+	if len(ch) > 0 && ch[0] != "mvhd" {
+		parts = append(parts, "mvhd-not-first")
+	}
+	between, before, after := false, false, false
+	for i, t := range ch {
+		if t == "trak" || t == "mvhd" {
+			continue
+		}
+		switch {
+		case i < first:
+			before = true
+		case i > last:
+			after = true
+		default:
+			between = true
+		}
+	}
+	if before {
+		parts = append(parts, "box-before-first-trak")
+	}
+	if between {
+		parts = append(parts, "box-between-traks")
+	}
+	if after {
+		parts = append(parts, "box-after-last-trak")
+	}
+	if len(parts) == 0 {
+		return "mvhd,traks"
+	}
+	return strings.Join(parts, "+")
 }
 
 func mul(a, b uint64) *big.Int {
@@ -272,9 +344,12 @@ func run(c *runner.Ctx, idx int) {
 	} else {
 		huge = (idx-len(corpus))%8 == 3
 		carry := (idx-len(corpus))%8 == 5
-		gen = prog.RandomMovie(c.Rand, prog.MovieOptions{Entries: entries, MultiDesc: true, Huge: huge, CarryProbe: carry, ZeroSizes: true, LateSync: true, ShortEdits: true})
+		gen = prog.RandomMovie(c.Rand, prog.MovieOptions{Entries: entries, MultiDesc: true, Huge: huge, CarryProbe: carry, ZeroSizes: true, LateSync: true, ShortEdits: true, MoovExtras: true, AlignedEnds: true})
 		if carry {
 			c.Count("carry_probe_movies", 1)
+		}
+		if strings.Contains(gen.DescriptionLabel, "ends-at-a-sync-sample-of-track-1") {
+			c.Count("movies_with_a_track_ending_at_a_sync_sample_of_track_1", 1)
 		}
 		data, name, kind = gen.Bytes, gen.DescriptionLabel, "generated"
 	}
@@ -315,6 +390,7 @@ func run(c *runner.Ctx, idx int) {
 	for _, tr := range in.Tracks {
 		c.Seen("track_shape", fmt.Sprintf("%s stss=%v ctts=%v sdtp=%v edts=%v co64=%v descs=%d", kindOf(tr), tr.Tables.HasStss, tr.Tables.HasCtts, tr.Tables.HasSdtp, tr.HasEdts, tr.Tables.HasCo64, len(tr.StsdEntries)))
 	}
+	c.Seen("moov_children", moovShape(in))
 	if len(in.Mdats) > 0 {
 		c.Seen("input_layout", fmt.Sprintf("mdatFirst=%v large=%v", in.TopLevel[1] == "mdat", in.Mdats[0].HdrLen == 16))
 	}
@@ -389,8 +465,31 @@ func run(c *runner.Ctx, idx int) {
 	}
 	defer os.Remove(inPath)
 	defer os.Remove(outPath)
+	var longest []byte // the longest successful output of this input so far
 	for _, ms := range durs {
-		os.Remove(outPath)
+		// what the output path holds before the run: nothing, or a file the tool has to replace
+		pre := c.Rand.PickStr("none", "none", "none", "empty-file", "garbage-longer-than-input", "longest-earlier-crop", "left-by-previous-run")
+		switch pre {
+		case "none":
+			os.Remove(outPath)
+		case "empty-file":
+			_ = os.WriteFile(outPath, nil, 0o644)
+		case "garbage-longer-than-input":
+			_ = os.WriteFile(outPath, c.Rand.Bytes(len(data)+c.Rand.Range(1, 4096)), 0o644)
+		case "longest-earlier-crop":
+			if longest == nil {
+				pre = "copy-of-input"
+				_ = os.WriteFile(outPath, data, 0o644)
+			} else {
+				_ = os.WriteFile(outPath, longest, 0o644)
+			}
+		case "left-by-previous-run":
+			// the output, the partial file of a failed run, or nothing
+		}
+		preLen := int64(-1)
+		if st, err := os.Stat(outPath); err == nil {
+			preLen = st.Size()
+		}
 		res := runTool(inPath, outPath, ms)
 		c.Count("tool_runs", 1)
 		inside := mul(ms, uint64(ref.Timescale)).Cmp(mul(ref.TotalDuration, 1000)) < 0
@@ -421,7 +520,23 @@ func run(c *runner.Ctx, idx int) {
 			c.Violation("output/missing", fmt.Sprintf("exit status 0 but no output file (-d %d, %s)", ms, name), map[string]interface{}{"input": name, "ms": ms})
 			continue
 		}
-		ck := &check{c: c, in: in, inBytes: data, out: out, ms: ms, name: name, ref: ref, stdout: res.stdout}
+		rel := "absent"
+		switch {
+		case preLen > int64(len(out)):
+			rel = "longer-than-new-output"
+		case preLen == int64(len(out)):
+			rel = "same-length"
+		case preLen >= 0:
+			rel = "shorter-than-new-output"
+		}
+		c.Seen("output_path_before_run", pre+","+rel)
+		if preLen >= 0 {
+			c.Count("runs_onto_existing_output_file", 1)
+		}
+		if len(out) > len(longest) {
+			longest = out
+		}
+		ck := &check{c: c, in: in, inBytes: data, out: out, ms: ms, name: name, ref: ref, stdout: res.stdout, pre: pre, preLen: preLen}
 		if ck.oracle() {
 			c.Nontrivial(runner.Hash64(data, []byte(fmt.Sprint(ms))))
 		}
@@ -441,11 +556,14 @@ type check struct {
 	name    string
 	ref     *stbl.Track
 	stdout  string
+	pre     string // what the output path held before the run
+	preLen  int64  // its length (-1: nothing)
 }
 
 func (k *check) detail(extra map[string]interface{}) map[string]interface{} {
 	d := map[string]interface{}{"input": k.name, "ms": k.ms, "input_bytes": len(k.inBytes), "output_bytes": len(k.out), "tool_stdout": k.stdout,
-		"reference_track": fmt.Sprintf("id %d %s timescale %d stss=%v", k.ref.ID, kindOf(k.ref), k.ref.Timescale, k.ref.Tables.HasStss)}
+		"reference_track":        fmt.Sprintf("id %d %s timescale %d stss=%v", k.ref.ID, kindOf(k.ref), k.ref.Timescale, k.ref.Tables.HasStss),
+		"output_path_before_run": fmt.Sprintf("%s (%d bytes)", k.pre, k.preLen), "input_moov_children": strings.Join(moovChildren(k.in), " ")}
 	var tl []string
 	for _, t := range k.in.Tracks {
 		tl = append(tl, fmt.Sprintf("id %d %s timescale %d samples %d stts %v", t.ID, kindOf(t), t.Timescale, len(t.Samples), head(t.Tables.Stts, 6)))
@@ -522,8 +640,12 @@ func (k *check) oracle() bool {
 		return true
 	}
 	if len(om.Tracks) != len(k.in.Tracks) {
-		k.viol("output/track-count", fmt.Sprintf("output has %d tracks, input %d", len(om.Tracks), len(k.in.Tracks)), nil)
+		k.viol("output/track-count", fmt.Sprintf("output has %d tracks, input %d (moov children: input %v, output %v)", len(om.Tracks), len(k.in.Tracks), moovChildren(k.in), moovChildren(om)), nil)
 		return true
+	}
+	// evidence only (the statement is about the tracks): do the non-trak children of moov reach the output?
+	if extraIn, extraOut := nonTrakChildren(k.in), nonTrakChildren(om); extraIn != "mvhd" {
+		c.Seen("non_trak_moov_children_in_output", map[bool]string{true: "all-kept", false: "changed"}[extraIn == extraOut])
 	}
 	// the statement's cut
 	syncNr := firstSyncAtOrAfter(k.ref, k.ms)
